@@ -72,6 +72,7 @@ def r_hasheq(ctx) -> None:
             ctx.fail('R-HASHEQ', fn, f'equality decided by comparing hashes: `{core.src(cmp)}` (colliding hashes, e.g. hash(-1) == hash(-2), make different objects equal)', cmp)
     ctx.ok('R-HASHEQ', 'forml.io.dsl', f'{nfun} functions of forml.io.dsl/_input scanned for hash()==hash() decisions (matcher self-checked on an embedded example)')
     ctx.floor('R-HASHEQ.functions', nfun, 300)
+    shared.r_repreq(ctx, list(prog.functions(mods)))
     # equality proxy structure
     operable = prog.cls(f'{SERIES}:Operable')
     eq = prog.func(f'{operable.ref}.__eq__')
@@ -555,6 +556,22 @@ def r_cachedep(ctx) -> None:
                 ctx.fail('R-ZIPALIGN', fn, f'`{core.src(z)}` pairs a name-keyed schema (equally named fields collapse) with a positional feature sequence: positions disagree as soon as two features share a name', z)
     ctx.ok('R-CACHEDEP', 'forml.io.dsl', f'{n} memoised methods of structurally compared DSL classes checked for namespace reads; family scanned for schema/feature zips (matchers self-checked on an embedded example)')
     ctx.floor('R-CACHEDEP.methods', n, 1)
+
+
+def eqhash_agreement(ctx, prefixes: tuple[str, ...], rule: str = 'R-EQHASH', floor: int = 1) -> None:
+    """Outside the DSL: for every class of the given modules defining both __eq__ and __hash__, whatever the hash reads (attributes,
+    the class) is compared by the equality - so that equal objects hash equal - and the equality compares the class."""
+    prog = ctx.prog
+    n = 0
+    for ci in sorted(prog.classes.values(), key=lambda c: c.ref):
+        if not ci.module.name.startswith(prefixes) or '__eq__' not in ci.methods or '__hash__' not in ci.methods:
+            continue
+        n += 1
+        h, e = _tokens(prog, ci, ci.methods['__hash__']), _tokens(prog, ci, ci.methods['__eq__'])
+        extra = sorted(h - e)
+        ctx.check(not extra, rule, ci.ref, f'{ci.qual}: the hash depends on {sorted(h)}, equality compares {sorted(e)}' + (f' - {extra} is hashed but not compared (equal objects may hash differently / identity is decided by something else than what is hashed)' if extra else ''), key=f'{ci.qual}:eqhash', loc=f'{ci.module.relpath}:{ci.methods["__eq__"].lineno}')
+        ctx.check('CLASS' in e, rule, ci.ref, f'{ci.qual}: equality compares the class of the other object', key=f'{ci.qual}:eq-class', loc=f'{ci.module.relpath}:{ci.methods["__eq__"].lineno}')
+    ctx.floor(f'{rule}.classes', n, floor)
 
 
 def structure(ctx) -> None:
